@@ -12,12 +12,12 @@ EXAMPLES = ["arith", "closure", "either", "list", "midi", "mini", "nonLinear", "
 # which latched failure tags belong to which property (a failure with a foreign tag blocks the case
 # for this property and is reported by the property that owns the tag)
 TAGS = {
-    "C06": {"control", "env", "result", "out", "value", "jump", "undef", "axcut"},
-    "C07": {"control", "env", "result", "out", "value", "jump", "undef", "axcut"},
+    "C06": {"control", "env", "result", "out", "value", "jump", "undef", "axcut", "callenv"},
+    "C07": {"control", "env", "result", "out", "value", "jump", "undef", "axcut", "callenv"},
     "C08": {"control", "env", "result", "out", "value", "jump", "undef", "axcut", "agree"},
     "C09": {"heap", "mem"},
     "C10": {"footprint"},
-    "C13": {"align", "cc", "undef"},
+    "C13": {"align", "cc", "undef", "callenv"},
     "C14": {"encode", "asm"},
 }
 
